@@ -323,20 +323,20 @@ def kernel_obligations(chk):
     impl = os.path.join(chk.dir, 'impl_default')
     if not os.path.exists(impl): impl = vlib.build_impl(chk.dir, 'impl_default')
     cases = []
-    n = chk.scale(3000, 100000)
+    n = chk.scale(3000, 20000)
     for v in limb_cases(chk.rng, n, 10): cases.append(('fe_mul_inner_raw ' + ' '.join('#%d' % x for x in v), 'translator_validation_mul'))
     for v in limb_cases(chk.rng, n, 5): cases.append(('fe_sqr_inner_raw ' + ' '.join('#%d' % x for x in v), 'translator_validation_sqr'))
     for fn, (ok, msg) in list(ctres.items()) + [(k, v) for k, v in k64.items() if not k.startswith('k64_')]:
         short = fn.replace('secp256k1_', '')
         if not ok or short not in RAW_SHAPES: continue
-        for i in range(chk.scale(400, 20000)):
+        for i in range(chk.scale(400, 3000)):
             cases.append(('raw_%s %s' % (short, ' '.join('#%d' % x for x in raw_inputs(chk.rng, RAW_SHAPES[short]))), 'translator_validation_' + short))
     chk.correspond(impl, gmodel, 'translator validation: generated Gallina vs compiled C (limb level)', cases=cases)
     impl32 = vlib.build_impl(chk.dir, 'impl_k32', ['-DUSE_FORCE_WIDEMUL_INT64=1'])
     cases = []
     for key, (ok, msg) in k32.items():
         if not ok or key not in K32_SHAPES: continue
-        for i in range(chk.scale(400, 20000)):
+        for i in range(chk.scale(400, 3000)):
             cases.append(('raw%s %s' % (key[6:] if key.startswith('scalar') else '_' + key, ' '.join('#%d' % x for x in raw32_inputs(chk.rng, K32_SHAPES[key]))), 'translator_validation_' + key))
     chk.correspond(impl32, gmodel, 'translator validation: generated Gallina (8x32 scalar code) vs the int64 build', cases=cases)
 
